@@ -18,7 +18,7 @@ static rc::Gen<KV> gen_c07() {
         size_t rate = irate(iface);
         size_t keylen = iface == I_PRF ? 16 : (iface >= I_ENC128 ? ((iface - I_ENC128) % 3 == 2 ? 20 : 16) : 40);
         auto key = (iface == I_PRF || iface >= I_ENC128) ? genBytesN(keylen) : genBytes(100, 8);
-        return rc::gen::mapcat(rc::gen::tuple(key, genBytes(600, rate), genBytes(60, 8), genBytes(90, rate), genLen(iface == I_HKDF || iface == I_HKDFA ? 500 : 300, iface == I_PRF ? 16 : rate), rc::gen::arbitrary<uint32_t>()),
+        return rc::gen::mapcat(rc::gen::tuple(key, genBytes(600, rate), genBytes(60, 8), genBytes(90, rate), (iface == I_HKDF || iface == I_HKDFA) ? rc::gen::weightedOneOf<size_t>({{4, genLen(500, rate)}, {1, rc::gen::map(inRangeFull(8100, 8161), [](int v) { return (size_t)v; })}}) : genLen(300, iface == I_PRF ? 16 : rate), rc::gen::arbitrary<uint32_t>()),
                                [iface, rate](std::tuple<Bytes, Bytes, Bytes, Bytes, size_t, uint32_t> t) {
             size_t inlen = std::get<1>(t).size(), outlen = std::get<4>(t);
             size_t orate = iface == I_PRF ? 16 : rate;
@@ -296,6 +296,14 @@ static std::string check_hkdf(const KV &c, int iface) {
     Bytes key = tobytes(c, "key"), salt = tobytes(c, "custom"), info = tobytes(c, "junk");
     size_t outlen = tonum(c, "outlen");
     std::vector<uint64_t> out_chunks = tolist(c, "out_chunks");
+    if (outlen > 8128) {
+        // the request reaches into the 255th (last permitted) block: put call boundaries inside that block
+        uint64_t sel = tonum(c, "inplace") + tonum(c, "copy_at");
+        uint64_t first = 8129 + sel % (outlen - 8128), rest = outlen - first;
+        out_chunks.clear();
+        out_chunks.push_back(first);
+        if (rest) { out_chunks.push_back(rest / 2); out_chunks.push_back(0); out_chunks.push_back(rest - rest / 2); }
+    }
     Buf k(key), s(salt), in(info), w(outlen);
     int rc = a ? ascon_hkdfa(w.nn(), outlen, k.p, k.n, s.p, s.n, in.p, in.n) : ascon_hkdf(w.nn(), outlen, k.p, k.n, s.p, s.n, in.p, in.n);
     if (rc != 0) return "hkdf one-shot failed";
